@@ -4,6 +4,7 @@ import (
 	"fmt"
 	"os"
 	"reflect"
+	"strings"
 	"testing"
 	"time"
 
@@ -91,7 +92,16 @@ func c06Gen(t *rapid.T) c06Case {
 	o.MaxInspections = 2
 	c := c06Case{World: hx.GenWorld(t, o), StepName: rapid.SampledFrom([]string{"", "", "final", "step0"}).Draw(t, "stepname"),
 		ZoneSecs: rapid.SampledFrom([]int{0, 0, -8 * 3600, 5*3600 + 1800, -12 * 3600, 14 * 3600, -3600}).Draw(t, "zone"), Params: rapid.Bool().Draw(t, "params")}
-	switch rapid.IntRange(0, 9).Draw(t, "expirykind") {
+	switch rapid.IntRange(0, 10).Draw(t, "expirykind") {
+	case 10:
+		// spellings the Go parser tolerates although they are not YYYY-MM-DDTHH:MM:SSZ (one-digit hour,
+		// fractional seconds): whatever one thinks of them, an instant in the past must not pass
+		deltas := []int64{5, 60, 3600, 2 * 3600, 5 * 3600, 9 * 3600, 14 * 3600, 20 * 3600, 86400, 3 * 86400}
+		d := rapid.SampledFrom(deltas).Draw(t, "ldelta")
+		if rapid.IntRange(0, 3).Draw(t, "lpast") > 0 {
+			d = -d
+		}
+		c.Expiry = c06Expiry{Mode: "rel-lenient", Rel: d, Text: rapid.SampledFrom([]string{"hour1", "hour1", "frac", "fraccomma"}).Draw(t, "lenient")}
 	case 0, 1:
 		c.Expiry = c06Expiry{Mode: "abs", Abs: hx.GenExpires().Draw(t, "abs")}
 	case 2, 3, 4, 5:
@@ -104,7 +114,7 @@ func c06Gen(t *rapid.T) c06Case {
 	case 6:
 		c.Expiry = c06Expiry{Mode: "text", Text: rapid.SampledFrom([]string{
 			"", "never", "Mon, 02 Jan 2126 15:04:05 GMT", "2126-01-02", "2126-01-02T15:04:05+01:00", "2126-01-02t15:04:05z", "2126-01-02 15:04:05Z",
-			"2126-01-02T15:04:05", "2126-01-02T15:04:05.5Z", "2126-13-02T15:04:05Z", "2126-02-30T15:04:05Z", "2126-01-02T24:00:00Z", "2126-01-02T15:60:05Z",
+			"2126-01-02T15:04:05", "2126-01-02T15:04:05.5Z", "2126-01-02T5:04:05Z", "1999-01-02T5:04:05Z", "1999-01-02T15:04:05.5Z", "2126-13-02T15:04:05Z", "2126-02-30T15:04:05Z", "2126-01-02T24:00:00Z", "2126-01-02T15:60:05Z",
 			"2126-01-02T15:04:60Z", "21260102T150405Z", "2126-1-2T15:04:05Z", " 2126-01-02T15:04:05Z", "2126-01-02T15:04:05Z ", "2126-01-02T15:04:05ZZ", "+2126-01-02T15:04:05Z",
 			"02126-01-02T15:04:05Z", "2126-01-02T15:04:05 UTC", "99999999999", "2126/01/02T15:04:05Z", "2126-01-02T15.04.05Z", "２１２６-01-02T15:04:05Z",
 		}).Draw(t, "text")}
@@ -133,6 +143,17 @@ func c06Run(c c06Case, r *hx.Rec) error {
 		expiry = c.Expiry.Abs
 	case "rel":
 		expiry = fmtExpiry(time.Now().Add(time.Duration(c.Expiry.Rel) * time.Second))
+	case "rel-lenient":
+		tt := time.Now().Add(time.Duration(c.Expiry.Rel) * time.Second).UTC()
+		expiry = fmtExpiry(tt)
+		switch c.Expiry.Text {
+		case "hour1":
+			expiry = fmt.Sprintf("%04d-%02d-%02dT%d:%02d:%02dZ", tt.Year(), int(tt.Month()), tt.Day(), tt.Hour(), tt.Minute(), tt.Second())
+		case "frac":
+			expiry = strings.TrimSuffix(expiry, "Z") + ".25Z"
+		case "fraccomma":
+			expiry = strings.TrimSuffix(expiry, "Z") + ",000Z"
+		}
 	default:
 		expiry = c.Expiry.Text
 	}
@@ -175,10 +196,18 @@ func c06Run(c c06Case, r *hx.Rec) error {
 	mustReject, mustAccept := false, false
 	switch {
 	case !wellFormed:
-		// documented leniency of the parser: fractional seconds after the seconds field
-		if len(expiry) > 20 && expiry[19] == '.' || len(expiry) > 20 && expiry[19] == ',' {
-			r.Label("fractional-seconds")
-			r.Unasserted()
+		// leniency of Go's parser (one-digit hour, fractional seconds after the seconds field): whether
+		// such a spelling is "well-formed" is not asserted - but if even the lenient reading lies in the
+		// past, the layout is expired under every reading and must be rejected
+		if lt, lerr := time.Parse("2006-01-02T15:04:05Z", expiry); lerr == nil {
+			r.Label("lenient-spelling")
+			if lt.Unix() < t0.Unix()-1 {
+				mustReject = true
+				r.Label("lenient-spelling-past")
+				r.Nontrivial()
+			} else {
+				r.Unasserted()
+			}
 		} else {
 			mustReject = true
 			r.Label("malformed")
@@ -226,7 +255,7 @@ func c06Run(c c06Case, r *hx.Rec) error {
 func TestC06(t *testing.T) {
 	begin(t, "C06")
 	hx.Assume("the real clock is bracketed (t0 before, t1 after the call); expiries inside the bracket are counted as unasserted; relative expiries are computed when the case runs, so replays re-derive them")
-	hx.Assume("strict grammar YYYY-MM-DDTHH:MM:SSZ parsed by hand with a civil-date algorithm; the documented fractional-seconds leniency of the Go parser is unasserted")
+	hx.Assume("strict grammar YYYY-MM-DDTHH:MM:SSZ parsed by hand with a civil-date algorithm; spellings that only Go's lenient parser accepts (one-digit hour, fractional seconds) are unasserted when their instant lies in the future and must be rejected when it lies in the past")
 	hx.Check[c06Case]{
 		Property: "C06", Part: "expiry",
 		Rule:  "otherwise-accepting generated worlds (both wrappers, both entry points, 0-2 logging inspections) x expiry: random well-formed timestamps year 1..9999, now +-{1s..10y}, calendar edge cases, other date layouts / time-zone suffixes / lower case / near-miss single-character edits / empty / arbitrary text; non-trivial = well-formed expiry within +-1h of now or a malformed string; distinct by (wrapper, entry, expiry spec, shape)",
